@@ -571,6 +571,7 @@ def race_extra(tier, rng, workdir):
                 seen_unsafe = True
             elif ev["safe"] and seen_unsafe:
                 why = ("the delay check wrote back a stale copy of the state" if opn == "race_delay" else
+                       "the delay check decided on a copy of the state it had read before the conflict was recorded (not under the tx state lock)" if opn == "race_read" else
                        "the delay check's safe update was still being sent (not under the tx state lock) when the conflict was reported")
                 failures.append(race_rec(c, r, 3, 103, "tx %d reported safe after it was reported unsafe: %s" % (t, why)))
                 break
